@@ -3,7 +3,7 @@ CONSTANTS
   KType <- MCKType
   KAlg <- MCKAlg
   MaxTTL = 1
-  Dev <- AllDevs
+  Dev <- OpenDevs
   KeySeq <- KS_zz
   MaxList = 2
   Ops = {}
@@ -11,7 +11,7 @@ CONSTANTS
   Rts = {"ZskRoll", "ZskDoubleSignatureRoll"}
   AltTag = {}
   OddLists = FALSE
-  WellTyped = FALSE
+  WellTyped = TRUE
   NoopRolls = TRUE
 SPECIFICATION Spec
 VIEW GenView
